@@ -141,6 +141,8 @@ pub fn case(w: &J) -> CaseResult {
                     match real {
                         Some(r) if model_matches(&mv, r) => {}
                         Some(r) => push("variable", format!("variable {n} = {}", vv::show(&mv)), format!("{n} = {}", vv::show(r))),
+                        // an unset variable reads as null: indistinguishable from a stored null
+                        None if mv == Value::Null => {}
                         None => push("variable", format!("variable {n} = {}", vv::show(&mv)), format!("{n} is unset")),
                     }
                 }
@@ -493,6 +495,41 @@ pub fn run_c08(tier: Tier) -> Report {
             m::marker(2),
         ]);
         progs.push(vec![P::SetErr(Tgt::Ev(vec![f_("o"), f_("p")]), Tgt::Ev(vec![f_("o"), f_("e")]), Box::new(l.clone())), m::marker(2)]);
+    }
+    // the same `ok` / `err` targets re-used by consecutive infallible assignments: a failure followed by a
+    // success must reset `err` to null (and a success followed by a failure must overwrite `ok`)
+    for l1 in &ls {
+        for l2 in ls.iter().take(6) {
+            progs.push(vec![
+                P::SetErr(m::var_t("x"), m::var_t("err"), Box::new(l1.clone())),
+                P::SetErr(m::var_t("y"), m::var_t("err"), Box::new(l2.clone())),
+                m::set(evt("e_after"), m::var("err")),
+                m::set(evt("y_after"), m::var("y")),
+            ]);
+            progs.push(vec![
+                P::SetErr(evt("ok"), evt("err"), Box::new(l1.clone())),
+                P::SetErr(evt("ok"), evt("err"), Box::new(l2.clone())),
+                m::marker(2),
+            ]);
+            progs.push(vec![
+                m::set(m::var_t("x"), m::bin("??", l1.clone(), m::lit_s("d1"))),
+                m::set(m::var_t("x"), m::bin("??", l2.clone(), m::lit_s("d2"))),
+                m::set(evt("x_after"), m::var("x")),
+            ]);
+        }
+    }
+    // inside a closure: the err variable of one iteration is seen by the next
+    for coll in [P::Arr(vec![m::lit_s("x"), m::lit_s("5"), m::lit_s("y")]), P::Arr(vec![m::lit_s("5"), m::lit_s("x"), m::lit_s("7")])] {
+        progs.push(vec![
+            m::set(evt("log"), P::Arr(vec![])),
+            P::Closure(
+                "for_each",
+                Box::new(coll),
+                vec!["_i".into(), "v".into()],
+                vec![P::SetErr(m::var_t("n"), m::var_t("err"), Box::new(m::call("to_int", vec![m::var("v")]))), m::set(evt("log"), m::call("push", vec![evp("log"), P::Arr(vec![m::var("n"), m::bin("==", m::var("err"), m::null())])]))],
+            ),
+            m::marker(2),
+        ]);
     }
     for p in &progs {
         for ev in &evs {
